@@ -97,6 +97,9 @@ pub struct Inner {
     pub writers: BTreeMap<u64, WState>,
     pub reader_inflight: i64,
     pub flush_hold: bool,
+    /// a client future is being polled: reader jobs it spawns start only after the poll returned, so
+    /// that whether the poll already sees the job's answer does not depend on thread timing
+    pub client_polling: bool,
     pub flush_parked: u32,
     pub flush_outstanding: i64,
     pub flush_started: u64,
@@ -216,6 +219,11 @@ impl GateSim {
         let mut g = self.lock();
         g.writers.clear();
         g.reader_inflight = 0;
+    }
+
+    pub fn set_client_polling(&self, on: bool) {
+        self.lock().client_polling = on;
+        self.cv.notify_all();
     }
 
     pub fn set_flush_hold(&self, hold: bool) {
@@ -407,7 +415,31 @@ impl GateSim {
             let (ng, _) = self.cv.wait_timeout(g, Duration::from_millis(2)).unwrap_or_else(|e| e.into_inner());
             g = ng;
             if start.elapsed() > timeout {
-                return None;
+                // Slow or blocked? Real time says nothing under load. The writer is blocked (on a
+                // lock another entity must release) only if no other thread of this process is
+                // running or runnable: then nothing can bring it to its next hook point.
+                drop(g);
+                let mut idle_samples = 0;
+                for _ in 0..4 {
+                    if other_threads_all_sleeping() {
+                        idle_samples += 1;
+                    } else {
+                        break;
+                    }
+                    std::thread::sleep(Duration::from_millis(1));
+                }
+                g = self.lock();
+                if idle_samples == 4 {
+                    if let Some(w) = g.writers.get(&id) {
+                        if w.parked.is_some() && !w.granted {
+                            return w.parked;
+                        }
+                    }
+                    return None;
+                }
+                if start.elapsed() > STUCK {
+                    panic!("simulation stuck: writer {id} neither parks nor blocks");
+                }
             }
         }
     }
@@ -545,6 +577,13 @@ impl Sim for GateSim {
                 g.reader_inflight += 1;
                 Action::Continue
             }
+            "reader:job:start" => {
+                let epoch = g.epoch;
+                while g.client_polling && g.epoch == epoch {
+                    g = self.cv.wait(g).unwrap_or_else(|e| e.into_inner());
+                }
+                Action::Continue
+            }
             "reader:job-" => {
                 g.reader_inflight -= 1;
                 drop(g);
@@ -652,4 +691,26 @@ impl Wake for Flag {
         drop(self.gate.lock());
         self.gate.notify();
     }
+}
+
+/// True when every thread of this process except the caller is sleeping (state S/T/Z in
+/// /proc/self/task/<tid>/stat): nobody is running, runnable or in disk wait.
+pub fn other_threads_all_sleeping() -> bool {
+    let me = unsafe { libc::syscall(libc::SYS_gettid) } as i64;
+    let Ok(rd) = std::fs::read_dir("/proc/self/task") else { return false };
+    for e in rd.flatten() {
+        let name = e.file_name();
+        let Some(tid) = name.to_str().and_then(|s| s.parse::<i64>().ok()) else { continue };
+        if tid == me {
+            continue;
+        }
+        let Ok(stat) = std::fs::read_to_string(e.path().join("stat")) else { continue };
+        // pid (comm) state ... ; comm may contain spaces and parentheses: take what follows the last ')'
+        let Some(pos) = stat.rfind(')') else { continue };
+        let state = stat[pos + 1..].trim_start().chars().next().unwrap_or('S');
+        if matches!(state, 'R' | 'D') {
+            return false;
+        }
+    }
+    true
 }
